@@ -372,7 +372,18 @@ def rec_obj(p):
 
 
 # ----------------------------------------------------------------------------- smoothing (C17)
+_SMOOTHERS = {}
+
+
 def int_kernel_smoother(kernel, ne):
+    """cached per (kernel, ne): results that are added must carry equal smoothers (same class, same parameters)"""
+    key = (tuple(kernel), ne)
+    if key not in _SMOOTHERS:
+        _SMOOTHERS[key] = _int_kernel_smoother(list(kernel), ne)
+    return _SMOOTHERS[key]
+
+
+def _int_kernel_smoother(kernel, ne):
     """a real AbstractSmoother (its own __init__ and __call__) whose _broaden returns the integer kernel of the spec:
     E = 0..ne-1 (dE = 1), smear = 1, maxdE = NE1  =>  NE1 = int(maxdE * smear / dE), smt = kernel * dE = kernel"""
     from wannierberri.smoother import AbstractSmoother, VoidSmoother
